@@ -49,6 +49,7 @@ var verifFrags = []string{
 	"!", "::", "..", "...", "&.", "->", "+=", "||=", "<=>", "#{", "=begin", "^", ";", "y", "$g", "FOO", ":sym", "**k", "A::B", "<<EOS",
 	"dbtp", "p", "attr_reader", "attr_accessor", "include", "extend", "raise", "push", "replace", "merge", "nil?", "is_a?",
 	"true", "false", "Integer", "String", "Array", "1.5", "first", "%w", "'q'", "`", "Hash", "puts", "class <<", "super", "lambda", "[]",
+	"\"\"", "x.", "Foo.", "[1].", "@a.", "self.",
 }
 
 const verifCoreN = 36
@@ -136,3 +137,51 @@ func VerifFragCtx(k int) { verifRunFrags(verifFragText(k, len(verifFrags), len(v
 
 // VerifFragCtxCore: k fragments over the reduced alphabet after every context prefix.
 func VerifFragCtxCore(k int) { verifRunFrags(verifFragText(k, verifCoreN, len(verifContexts)-1)) }
+
+// ---- C04: editor query modes ----
+
+func verifModeLineOK(line string) bool {
+	return strings.HasPrefix(line, "%") || strings.HasPrefix(line, "@") || strings.HasPrefix(line, "$") || strings.HasPrefix(line, "./a.rb:::")
+}
+
+func verifModeStdoutOK(out string) bool {
+	if out == "" {
+		return true
+	}
+	for _, line := range strings.Split(strings.TrimSuffix(out, "\n"), "\n") {
+		if !verifModeLineOK(line) {
+			return false
+		}
+	}
+	return true
+}
+
+// verifRunModes: the fragment text analysed with --suggest / --hover / --define (mode
+// concretised) and --row=N with N a solver variable in [0, lines+2].
+func verifRunModes(text string) {
+	mode := verifapi.Concrete(verifapi.Int("mode", 0, 2))
+	lines := strings.Count(text, "\n") + 1
+	row := verifapi.Int("row", 0, lines+2)
+	flags := cmd.NewExecuteFlags()
+	modeFlag := []string{"--suggest", "--hover", "--define"}[mode]
+	switch mode {
+	case 0:
+		flags.IsSuggest = true
+	case 1:
+		flags.IsHover = true
+	case 2:
+		flags.IsDefineAllInfo = true
+	}
+	verifapi.Witness("src", text)
+	verifapi.Witness("mode", modeFlag)
+	verifapi.WitnessInt("row", row)
+	verifapi.CatchExit(func() { verifRunProgram(text, "./a.rb", flags, row) })
+	out := verifapi.TakeStdout()
+	verifapi.Reach("ran")
+	verifapi.Classify("C04/output-line-is-not-a-record-or-diagnostic/" + modeFlag)
+	verifapi.Assert(verifModeStdoutOK(out), "C04-output-lines")
+}
+
+func VerifModesTop(k int)     { verifRunModes(verifFragText(k, len(verifFrags), 0)) }
+func VerifModesCore(k int)    { verifRunModes(verifFragText(k, verifCoreN, 0)) }
+func VerifModesCtxCore(k int) { verifRunModes(verifFragText(k, verifCoreN, len(verifContexts)-1)) }
